@@ -9,33 +9,36 @@
 (*   file{size,nul,lines}  row{i,rec}         decoded output               *)
 (***************************************************************************)
 EXTENDS Batch, TraceLib
-VARIABLES started, eofSeen
-tvars == <<bvars, l, started, eofSeen>>
+VARIABLES started, eofSeen, rowsSeen
+tvars == <<bvars, l, started, eofSeen, rowsSeen>>
 NoCfg == [lens |-> <<>>, mem |-> 1]
-TInit == TrackInit /\ l = 1 /\ started = FALSE /\ eofSeen = FALSE /\ BInitCfg(NoCfg)
+TInit == TrackInit /\ l = 1 /\ started = FALSE /\ eofSeen = FALSE /\ rowsSeen = 0 /\ BInitCfg(NoCfg)
 A(i) == Ev.a[i]
-Skip == Consume /\ UNCHANGED <<bvars, started, eofSeen>>
+Skip == Consume /\ UNCHANGED <<bvars, started, eofSeen, rowsSeen>>
+RunComplete == ~started \/ (fin /\ rowsSeen = N)
 IsFlush == l <= Len(Rec) /\ Rec[l].ev \in {"oligo.batch_flush", "cgr.batch_flush", "oligocgr.batch_flush", "cov.batch_flush"}
 
-TReset == /\ Is("reset") /\ (~started \/ fin)
+TReset == /\ Is("reset") /\ RunComplete
           /\ BReset([lens |-> Ev.lens, mem |-> Ev.mem])
-          /\ started' = TRUE /\ eofSeen' = FALSE /\ Consume
+          /\ started' = TRUE /\ eofSeen' = FALSE /\ rowsSeen' = 0 - 1 /\ Consume
 TTake == /\ Is("seq.take") /\ started /\ ~eofSeen /\ Read
          /\ A(1) = rd /\ A(2) = bcfg.lens[rd + 1]
-         /\ Consume /\ UNCHANGED <<started, eofSeen>>
+         /\ Consume /\ UNCHANGED <<started, eofSeen, rowsSeen>>
 TTakeNone == /\ Is("seq.take_none") /\ started /\ ~eofSeen /\ ~must /\ rd = N
-             /\ eofSeen' = TRUE /\ Consume /\ UNCHANGED <<bvars, started>>
+             /\ eofSeen' = TRUE /\ Consume /\ UNCHANGED <<bvars, started, rowsSeen>>
 TFlush == /\ IsFlush /\ started
           /\ A(1) = Len(buf)
           /\ \/ ~eofSeen /\ FlushFull
              \/ eofSeen /\ FinalFlush
-          /\ Consume /\ UNCHANGED <<started, eofSeen>>
+          /\ Consume /\ UNCHANGED <<started, eofSeen, rowsSeen>>
 \* nothing left to flush at the end: no event
-TFinalNone == /\ started /\ eofSeen /\ FinalNone /\ UNCHANGED <<l, started, eofSeen>>
+TFinalNone == /\ started /\ eofSeen /\ FinalNone /\ UNCHANGED <<l, started, eofSeen, rowsSeen>>
 TIgnore == /\ l <= Len(Rec) /\ Rec[l].ev \in {"cov.loop_end", "oligo.idx", "oligocgr.idx", "cov.idx"} /\ Skip
-TFile == /\ Is("file") /\ fin /\ Ev.lines = N + Rec[l].hdr /\ Ev.nul = 0 /\ Skip
-TRow == Is("row") /\ fin /\ Ev.rec = Ev.i /\ Ev.i \in 0..(N - 1) /\ Skip
-TEof == Is("eof") /\ (~started \/ fin) /\ Skip
+TFile == /\ Is("file") /\ fin /\ rowsSeen = 0 - 1 /\ Ev.lines = N + Rec[l].hdr /\ Ev.nul = 0
+         /\ rowsSeen' = 0 /\ Consume /\ UNCHANGED <<bvars, started, eofSeen>>
+TRow == /\ Is("row") /\ fin /\ Ev.i = rowsSeen /\ Ev.rec = Ev.i /\ Ev.i \in 0..(N - 1)
+        /\ rowsSeen' = rowsSeen + 1 /\ Consume /\ UNCHANGED <<bvars, started, eofSeen>>
+TEof == Is("eof") /\ RunComplete /\ Skip
 TNext == TReset \/ TTake \/ TTakeNone \/ TFlush \/ TFinalNone \/ TIgnore \/ TFile \/ TRow \/ TEof
 TSpec == TInit /\ [][TNext]_tvars
 TraceInv == OrderInv /\ DoneInv
